@@ -27,6 +27,7 @@ func (m *Mutex) Lock() {
 		vsched.Point(vsched.KLock, unsafe.Pointer(m))
 		m.mu.Lock()
 		vsched.MutexAcquired(unsafe.Pointer(m))
+		vsched.After(true)
 		return
 	}
 	m.mu.Lock()
@@ -37,6 +38,7 @@ func (m *Mutex) Unlock() {
 		vsched.Point(vsched.KUnlock, unsafe.Pointer(m))
 		vsched.MutexReleased(unsafe.Pointer(m))
 		m.mu.Unlock()
+		vsched.After(true)
 		return
 	}
 	m.mu.Unlock()
@@ -123,8 +125,10 @@ func (c *Cond) Wait() {
 		// broadcast issued after the unlock cannot be missed.
 		vsched.Point(vsched.KCondWait, unsafe.Pointer(c))
 		vsched.CondEnqueue(unsafe.Pointer(c))
+		vsched.After(true)
 		c.L.Unlock()
 		vsched.Point(vsched.KCondBlocked, unsafe.Pointer(c))
+		vsched.After(true)
 		c.L.Lock()
 		return
 	}
@@ -135,6 +139,7 @@ func (c *Cond) Broadcast() {
 	if vsched.Active() {
 		vsched.Point(vsched.KBroadcast, unsafe.Pointer(c))
 		vsched.CondBroadcast(unsafe.Pointer(c))
+		vsched.After(true)
 		return
 	}
 	c.native().Broadcast()
